@@ -30,7 +30,8 @@ def deferred_requeued(ctx, rule):
         for n, c in W.calls("self._serviceOneTxPkt"):
             callers += 1
             a0 = c.args[0] if c.args else next((k.value for k in c.keywords if k.arg == "laters"), None)
-            back = [x for x, cc in W.calls(("self.txPkts.append", "self.txPkts.extend")) if isinstance(a0, ast.Name) and a0.id in src(cc)]
+            back = [x for x, cc in W.calls(("self.txPkts.append", "self.txPkts.extend")) if isinstance(a0, ast.Name) and cc.args and
+                    (a0.id in src(cc) or (src(W.sym(a0, x)) + ".pop") in src(W.sym(cc.args[0], x, unpack=True)))]
             okc = isinstance(a0, ast.Name) and bool(back) and W.cfg.always_reaches([n.id], [b.id for b in back], skip_exc=True) is not False
             # the re-queue sits in a `while laters:` loop: reaching the loop test is what every path must do
             loops = [t for t in W.cfg.nodes if t.kind == "test" and isinstance(t.ast, ast.While) and isinstance(a0, ast.Name) and dotted(t.ast.test) == a0.id]
@@ -38,6 +39,15 @@ def deferred_requeued(ctx, rule):
                 okc = all(W.cfg.always_reaches([n.id], [t.id for t in loops], skip_exc=True) for _ in [0]) and bool(back)
             ctx.check(okc, rule, c, "%s: packets deferred by _serviceOneTxPkt(%s, ..) are put back on .txPkts" % (mname, src(a0) if a0 is not None else "?"),
                       "a packet deferred after a transient send error must stay queued for retry; a throw-away `laters` drops it silently")
+            # .. and the set of destinations that blocked belongs to this pass: bound, in this function, to a new empty list
+            a1 = c.args[1] if len(c.args) > 1 else next((k.value for k in c.keywords if k.arg == "blockeds"), None)
+            v1 = W.sym(a1, n) if a1 is not None else None
+            fresh = isinstance(v1, ast.List) and not v1.elts or (isinstance(v1, ast.Call) and dotted(v1.func) in ("list", "set") and not v1.args)
+            ctx.check(bool(fresh), rule, c, "%s: the blocked-destination list handed to _serviceOneTxPkt is a new empty list of this pass (%s)"
+                      % (mname, src(v1) if v1 is not None else "?"),
+                      "a destination that had a transient error is skipped for the rest of the pass only; a list that outlives the pass "
+                      "(an attribute, a module global, a default argument) keeps the destination blocked for good: a retryable error "
+                      "becomes permanent and its packets are never sent again")
     ctx.floor(rule + ":callers", callers, 2)
 
 
@@ -80,6 +90,7 @@ def check(ctx):
               "re-queuing the deferred packets in reversed order (extendleft) or at the head of a non-empty queue changes the "
               "per-destination order")
     deferred_requeued(ctx, "T2-drain")
+    once_keeps_order(ctx)
     so = G.own_method("_serviceOneTxPkt")
 
     def send_may_raise(node):
@@ -142,3 +153,42 @@ def check(ctx):
              if any(n.id in SP.cfg.reachable(b.id) for b in back)]
     ctx.check(not later, "T2-final", later[0].ast if later else sp, "serviceTxPkts ends with the re-queue of the deferred packets",
               "packets sent after the re-queue are outside the pass's blocked-destination bookkeeping: per-destination order is lost")
+
+
+def once_keeps_order(ctx):
+    """serviceTxPktsOnce services one packet: nothing behind it has been looked at, so a deferred packet that goes to the tail
+    must take the later packets to its destination with it (removed from their places, re-queued right behind it, in order)"""
+    ctx.rule("T2-once", "GramStack.serviceTxPktsOnce: txPkts.append(<deferred (pkt, ha)>) is preceded by the removal of the queued "
+             "duples with the same ha and followed by txPkts.extend(<those>)")
+    G = ctx.cls("stacking", "GramStack")
+    f = G.own_method("serviceTxPktsOnce")
+    V = FuncView(ctx, f)
+    aps = [(n, c) for n, c in V.calls("self.txPkts.append")]
+    V.need(aps, "self.txPkts.append in serviceTxPktsOnce")
+    ok = True
+    for n, c in aps:
+        arg = V.sym(c.args[0], n, unpack=True) if c.args else None
+        deferred = arg is not None and (src(V.sym(ast.Name(id="laters", ctx=ast.Load()), n)) + ".pop") in src(arg)
+        ok = ok and deferred
+        # the same-destination rest: a list built from self.txPkts by a filter on the duple's destination
+        comps = [(m, m.ast.value) for m in V.cfg.nodes if isinstance(m.ast, ast.Assign) and isinstance(m.ast.value, ast.ListComp)
+                 and len(m.ast.value.generators) == 1 and src(m.ast.value.generators[0].iter) == "self.txPkts"
+                 and len(m.ast.value.generators[0].ifs) == 1]
+        good = False
+        for m, lc in comps:
+            g = lc.generators[0]
+            t = g.ifs[0]
+            var = src(g.target)
+            sel = isinstance(t, ast.Compare) and len(t.ops) == 1 and isinstance(t.ops[0], ast.Eq) and \
+                ("%s[1]" % var) in (src(t.left), src(t.comparators[0])) and src(lc.elt) == var
+            name = src(m.ast.targets[0])
+            rem = [r for r in V.cfg.nodes if r.kind == "for" and src(r.ast.iter) == name and
+                   any(isinstance(x, ast.Call) and call_name(x) == "self.txPkts.remove" for x in ast.walk(r.ast))]
+            ext = [e for e, ce in V.calls("self.txPkts.extend") if src(ce.args[0]) == name]
+            if sel and rem and ext and V.dominated([n], [m]) and V.dominated([n], rem) and \
+                    V.cfg.always_reaches([n.id], [e.id for e in ext], skip_exc=True) is not False:
+                good = True
+        ok = ok and good
+    ctx.check(ok, "T2-once", f, "serviceTxPktsOnce: a deferred packet is re-queued with the later packets to its destination behind it",
+              "re-appending the one deferred packet alone puts it behind the later packets to the same destination: [A:p0, A:p1] with "
+              "a transient failure of A becomes [A:p1, A:p0] and p1 goes out first (repro: /verif/repro/c35_once_reorders.py)")
